@@ -659,11 +659,12 @@ pub fn eval_disc(c: &DiscCase) -> CaseOut {
         });
         let Built::Ran(out) = out else { panic!("machinery: config refused") };
         let Some((r, written, alive)) = out else { return CaseOut { class: 99, viol } };
-        // ReasonCode::from maps undefined bytes to Unknown (0xFF)
-        let known: [u8; 51] = [0x00, 0x01, 0x02, 0x04, 0x10, 0x11, 0x18, 0x19, 0x80, 0x81, 0x82, 0x83, 0x84, 0x85, 0x86, 0x87, 0x88, 0x89, 0x8c, 0x8d, 0x8e, 0x8f, 0x90, 0x91, 0x92, 0x93, 0x94, 0x95, 0x96, 0x97, 0x98, 0x99, 0x9a, 0x9b, 0x9c, 0x9d, 0x9e, 0x9f, 0xa0, 0xa1, 0xa2, 0xFF, 0, 0, 0, 0, 0, 0, 0, 0, 0];
+        // every reason code MQTT 5 defines (for any packet type) travels as it is; ReasonCode::from maps
+        // undefined bytes to Unknown (0xFF)
+        let known: [u8; 53] = [0x00, 0x01, 0x02, 0x04, 0x10, 0x11, 0x18, 0x19, 0x80, 0x81, 0x82, 0x83, 0x84, 0x85, 0x86, 0x87, 0x88, 0x89, 0x8a, 0x8b, 0x8c, 0x8d, 0x8e, 0x8f, 0x90, 0x91, 0x92, 0x93, 0x94, 0x95, 0x96, 0x97, 0x98, 0x99, 0x9a, 0x9b, 0x9c, 0x9d, 0x9e, 0x9f, 0xa0, 0xa1, 0xa2, 0xFF, 0, 0, 0, 0, 0, 0, 0, 0, 0];
         let want_reason = match c.reason {
             None => 0u8,
-            Some(code) if known[..42].contains(&code) => code,
+            Some(code) if known[..44].contains(&code) => code,
             Some(_) => 0xFF,
         };
         match r {
